@@ -1,4 +1,243 @@
+//! C01 / C04 — routing dispatch and fang (middleware) scoping on the real router.
+//! Scenario (vocabulary of specs/RouterApp.tla):
+//!   {"apps":[{"fangs":[ids],"items":[{"t":"route","segs":[{"k":"S","s":[chars]}|{"k":"P","s":[]}],"methods":[..],"local":[ids],"h":id,"app":0}
+//!                                     |{"t":"mount","segs":[..],"app":k,..}]}..],
+//!    "early": fang id that answers early (0 = none), "reqs":[{"method","path":[[chars]..],"trailing":n}..]}
+//! The application tree is assembled at run time through the public Route/Ohkami API (hook: ohkami::__verif),
+//! finalised into the real router, and every request is parsed by the real Request::read and handled.
+use crate::util::{self, arr, i, s, Rng};
+use ohkami::__verif as v;
+use ohkami::prelude::*;
 use serde_json::{json, Value};
-pub fn run(_scn: &Value) -> Value { json!({"kind": "unimplemented"}) }
-#[allow(dead_code)]
-pub fn gen(_rng: &mut crate::util::Rng, i: usize) -> Value { json!({"id": i}) }
+use std::cell::RefCell;
+
+thread_local! { static LOG: RefCell<Vec<(&'static str, i64)>> = const { RefCell::new(Vec::new()) }; }
+fn log(k: &'static str, id: i64) { LOG.with(|l| l.borrow_mut().push((k, id))) }
+thread_local! { static PARAMS: RefCell<Vec<String>> = const { RefCell::new(Vec::new()) }; }
+fn got(ps: &[&String]) { PARAMS.with(|p| *p.borrow_mut() = ps.iter().map(|s| s.to_string()).collect()) }
+
+#[derive(Clone)]
+pub struct TraceFang { pub id: i64, pub early: bool }
+impl<I: ohkami::FangProc> ohkami::Fang<I> for TraceFang {
+    type Proc = TraceProc<I>;
+    fn chain(&self, inner: I) -> Self::Proc { TraceProc { f: self.clone(), inner } }
+}
+pub struct TraceProc<I> { f: TraceFang, inner: I }
+impl<I: ohkami::FangProc> ohkami::FangProc for TraceProc<I> {
+    async fn bite<'b>(&'b self, req: &'b mut Request) -> Response {
+        log("enter", self.f.id);
+        if self.f.early { return Response::Forbidden() }
+        let res = self.inner.bite(req).await;
+        log("leave", self.f.id);
+        res
+    }
+}
+
+/// concretisation of the abstract characters; images keep the byte-prefix relations of the abstract strings
+pub struct Table { a: &'static str, b: &'static str, pub pval: [&'static str; 2] }
+pub fn table(seed: u64) -> Table {
+    match seed % 4 {
+        0 => Table { a: "a", b: "b", pval: ["a", "b"] },
+        1 => Table { a: "users", b: "2", pval: ["users", "2"] },
+        2 => Table { a: "x", b: "y-z", pval: ["x", "y-z"] },
+        _ => Table { a: "api", b: "v_1", pval: ["api", "v_1"] },
+    }
+}
+impl Table {
+    pub fn chars(&self, cs: &Value) -> String {
+        arr(cs).iter().map(|c| match s(c) { "a" => self.a, "b" => self.b, "c" => "c", "2" => "2", o => util::leak(o.to_string()) }).collect()
+    }
+    /// back from concrete text to abstract chars ("?" if it is not an image)
+    pub fn unchars(&self, t: &str) -> Value {
+        let mut out = vec![]; let mut rest = t;
+        while !rest.is_empty() {
+            if rest.starts_with(self.a) { out.push("a"); rest = &rest[self.a.len()..] }
+            else if rest.starts_with(self.b) { out.push("b"); rest = &rest[self.b.len()..] }
+            else { return json!(["?"]) }
+        }
+        json!(out)
+    }
+    pub fn route_literal(&self, segs: &Value, pbase: usize) -> String {
+        let mut r = String::new(); let mut np = pbase;
+        for sg in arr(segs) {
+            r.push('/');
+            if s(&sg["k"]) == "P" { np += 1; r.push_str(&format!(":p{np}")) } else { r.push_str(&self.chars(&sg["s"])) }
+        }
+        if r.is_empty() { "/".into() } else { r }
+    }
+}
+fn nparams(segs: &Value) -> usize { arr(segs).iter().filter(|sg| s(&sg["k"]) == "P").count() }
+
+macro_rules! handler_for { ($np:expr, $id:expr) => {{ let id = $id; match $np {
+    0 => HandlerKind::H0(id), 1 => HandlerKind::H1(id), _ => HandlerKind::H2(id) } }} }
+enum HandlerKind { H0(i64), H1(i64), H2(i64) }
+
+fn echo0(id: i64) -> String { log("handler", id); format!("h{id}") }
+
+/// registers handler `id` for the given methods on `hs`, wrapped in `local` fangs
+fn with_methods(mut hs: v::HandlerSet, methods: &[Value], np: usize, id: i64, local: &[TraceFang]) -> v::HandlerSet {
+    macro_rules! reg { ($hs:ident, $m:ident, $h:expr) => { $hs = match local.len() {
+        0 => $hs.$m($h),
+        1 => $hs.$m((local[0].clone(), $h)),
+        _ => $hs.$m((local[0].clone(), local[1].clone(), $h)),
+    } } }
+    macro_rules! reg_all { ($m:ident) => { match handler_for!(np, id) {
+        HandlerKind::H0(id) => reg!(hs, $m, move || async move { echo0(id) }),
+        HandlerKind::H1(id) => reg!(hs, $m, move |p: String| async move { log("handler", id); got(&[&p]); format!("h{id}|{p}") }),
+        HandlerKind::H2(id) => reg!(hs, $m, move |(p, q): (String, String)| async move { log("handler", id); got(&[&p, &q]); format!("h{id}|{p}|{q}") }),
+    } } }
+    for m in methods { match s(m) { "GET" => reg_all!(GET), "POST" => reg_all!(POST), "PUT" => reg_all!(PUT), "PATCH" => reg_all!(PATCH), "DELETE" => reg_all!(DELETE), _ => {} } }
+    hs
+}
+
+pub fn build_app(apps: &[Value], idx: usize, t: &Table, early: i64, pbase: usize) -> Ohkami {
+    let app = &apps[idx - 1];
+    let fangs: Vec<TraceFang> = arr(&app["fangs"]).iter().map(|f| TraceFang { id: i(f), early: i(f) == early }).collect();
+    let mut o = match fangs.len() {
+        0 => Ohkami::new(()),
+        1 => Ohkami::with((fangs[0].clone(),), ()),
+        2 => Ohkami::with((fangs[0].clone(), fangs[1].clone()), ()),
+        3 => Ohkami::with((fangs[0].clone(), fangs[1].clone(), fangs[2].clone()), ()),
+        _ => Ohkami::with((fangs[0].clone(), fangs[1].clone(), fangs[2].clone(), fangs[3].clone()), ()),
+    };
+    for it in arr(&app["items"]) {
+        let lit = util::leak(t.route_literal(&it["segs"], pbase));
+        if s(&it["t"]) == "route" {
+            let local: Vec<TraceFang> = arr(&it["local"]).iter().map(|f| TraceFang { id: i(f), early: i(f) == early }).collect();
+            let hs = with_methods(v::handler_set(lit), arr(&it["methods"]), pbase + nparams(&it["segs"]), i(&it["h"]), &local);
+            v::apply_handlers(&mut o, hs);
+        } else {
+            let child = build_app(apps, i(&it["app"]) as usize, t, early, pbase + nparams(&it["segs"]));
+            v::apply_by(&mut o, v::by_another(lit, child));
+        }
+    }
+    o
+}
+
+pub fn request_bytes(req: &Value, t: &Table) -> Vec<u8> {
+    let mut p = String::new();
+    for sg in arr(&req["path"]) { p.push('/'); p.push_str(&t.chars(sg)) }
+    for _ in 0..i(&req["trailing"]) { p.push('/') }
+    if p.is_empty() { p.push('/') }
+    format!("{} {} HTTP/1.1\r\nHost: x\r\n\r\n", s(&req["method"]), p).into_bytes()
+}
+
+pub fn exec(router: &v::VRouter, raw: &[u8], head: bool) -> (util::ParsedResponse, Vec<(&'static str, i64)>) {
+    LOG.with(|l| l.borrow_mut().clear());
+    PARAMS.with(|p| p.borrow_mut().clear());
+    let out = util::block_on(async {
+        let mut req = v::VRequest::new();
+        let mut rd = raw;
+        let res = match req.read(&mut rd).await { Ok(Some(())) => req.handle(router).await, Ok(None) => Response::new(Status::Gone), Err(e) => e };
+        let mut out = Vec::new();
+        v::send(res, &mut out).await;
+        out
+    });
+    (util::parse_response(&out, head), LOG.with(|l| l.borrow().clone()))
+}
+
+pub fn run(scn: &Value) -> Value {
+    let apps = arr(&scn["apps"]);
+    let seed = scn["seed"].as_u64().unwrap_or_else(|| scn["id"].as_u64().unwrap_or(0));
+    let t = table(seed);
+    let early = i(&scn["early"]);
+    let o = build_app(apps, 1, &t, early, 0);
+    let router = v::finalize(o);
+    let mut res = vec![];
+    for req in arr(&scn["reqs"]) {
+        let raw = request_bytes(req, &t);
+        let head = s(&req["method"]) == "HEAD";
+        let (p, lg) = exec(&router, &raw, head);
+        let body = String::from_utf8_lossy(&p.body).to_string();
+        let h = lg.iter().find(|(k, _)| *k == "handler").map(|(_, id)| *id).unwrap_or(0);
+        let params: Vec<Value> = PARAMS.with(|p| p.borrow().iter().map(|x| t.unchars(x)).collect());
+        let echoed = !head && h != 0 && body == std::iter::once(format!("h{h}")).chain(PARAMS.with(|p| p.borrow().clone())).collect::<Vec<_>>().join("|");
+        res.push(json!({"status": p.status, "h": h, "params": params, "blen": p.body.len() as i64, "wf": p.error.is_empty(),
+                        "echo": echoed,
+                        "log": lg.iter().map(|(k, id)| json!([k, id])).collect::<Vec<_>>()}));
+    }
+    json!({"kind": "router", "res": res, "table": [t.a, t.b]})
+}
+
+/// random applications with a realistic vocabulary: up to 3 apps, up to 4 routes each, depth <= 3
+pub fn gen(rng: &mut Rng, idx: usize) -> Value {
+    let c04 = idx % 2 == 1;
+    let napps = rng.range(1, 3);
+    let segstr = [vec!["a"], vec!["b"], vec!["a", "b"], vec!["a", "a"], vec!["b", "a"], vec!["a", "b", "a"]];
+    let mut apps: Vec<(Vec<i64>, Vec<Value>)> = (0..napps).map(|a| ((0..rng.below(3)).map(|k| (10 * (a + 1) + k + 1) as i64).collect(), vec![])).collect();
+    let mut nexth = 1i64;
+    // params above each app
+    let mut pabove = vec![0usize; napps];
+    let seg = |rng: &mut Rng, allow_p: bool| -> Value { if allow_p && rng.chance(1, 3) { json!({"k": "P", "s": []}) } else { json!({"k": "S", "s": rng.pick(&segstr).clone()}) } };
+    // `under` = the item x does not leave the mount prefix pre at a position where pre is static (see Diverges in RouterGen.tla)
+    let under = |x: &[Value], pre: &[Value]| -> bool {
+        for k in 0..x.len().min(pre.len()) {
+            if x[k] == pre[k] { continue }
+            return !(s(&pre[k]["k"]) == "S")
+        }
+        x.len() >= pre.len()
+    };
+    // mounts: app k+1 mounted into a random earlier app
+    for b in 1..napps {
+        let a = rng.below(b);
+        let n = rng.range(1, 2);
+        let mut pre = vec![]; let mut np = 0;
+        for _ in 0..n { let sg = seg(rng, pabove[a] + np < 2); if s(&sg["k"]) == "P" { np += 1 } pre.push(sg) }
+        let clash = apps[a].1.iter().any(|it| { let x = arr(&it["segs"]); under(x, &pre) || (s(&it["t"]) == "mount" && under(&pre, x)) });
+        if clash { // fall back to a fresh static prefix
+            pre = vec![json!({"k": "S", "s": ["b", "b", "a"]}), json!({"k": "S", "s": [if b == 1 { "a" } else { "b" }]})]; np = 0;
+            if apps[a].1.iter().any(|it| { let x = arr(&it["segs"]); under(x, &pre) || (s(&it["t"]) == "mount" && under(&pre, x)) }) { continue }
+        }
+        pabove[b] = pabove[a] + np;
+        apps[a].1.push(json!({"t": "mount", "segs": pre, "methods": [], "local": [], "h": 0, "app": b + 1}));
+    }
+    let mounted: Vec<bool> = (0..napps).map(|b| b == 0 || apps.iter().any(|(_, its)| its.iter().any(|it| s(&it["t"]) == "mount" && i(&it["app"]) as usize == b + 1))).collect();
+    for a in 0..napps {
+        if !mounted[a] { continue }
+        let nr = rng.range(1, 4);
+        for _ in 0..nr {
+            let n = rng.below(4);
+            let mut r = vec![]; let mut np = 0;
+            for _ in 0..n { let sg = seg(rng, pabove[a] + np < 2); if s(&sg["k"]) == "P" { np += 1 } r.push(sg) }
+            let clash = apps[a].1.iter().any(|it| if s(&it["t"]) == "route" { arr(&it["segs"]) == &r[..] } else { under(&r, arr(&it["segs"])) });
+            if clash { continue }
+            let ms: Vec<&str> = match rng.below(4) { 0 => vec!["GET"], 1 => vec!["POST"], 2 => vec!["GET", "POST"], _ => vec!["GET", "PUT"] };
+            let local: Vec<i64> = if c04 { (0..rng.below(3)).map(|k| 7 + k as i64).collect() } else { vec![] };
+            apps[a].1.push(json!({"t": "route", "segs": r, "methods": ms, "local": local, "h": nexth, "app": 0})); nexth += 1;
+        }
+        if !apps[a].1.iter().any(|it| s(&it["t"]) == "route") {
+            let r = vec![json!({"k": "S", "s": ["b", "b"]})];
+            let r = if apps[a].1.iter().any(|it| under(&r, arr(&it["segs"]))) { vec![] } else { r };
+            apps[a].1.push(json!({"t": "route", "segs": r, "methods": ["GET"], "local": [], "h": nexth, "app": 0})); nexth += 1;
+        }
+    }
+    // unmounted apps (mount skipped): drop by making them unreachable — keep indices stable with a dummy route
+    for a in 0..napps { if !mounted[a] && apps[a].1.is_empty() { apps[a].1.push(json!({"t": "route", "segs": [], "methods": ["GET"], "local": [], "h": 900 + a as i64, "app": 0})) } }
+    if !c04 { for a in apps.iter_mut() { a.0.clear() } }
+    // requests: instances and near misses of every route and mount prefix
+    let mut fulls: Vec<Vec<Value>> = vec![];
+    fn collect(apps: &[(Vec<i64>, Vec<Value>)], a: usize, prefix: Vec<Value>, out: &mut Vec<Vec<Value>>) {
+        for it in &apps[a].1 { let mut f = prefix.clone(); f.extend(arr(&it["segs"]).iter().cloned());
+            if s(&it["t"]) == "mount" { out.push(f.clone()); collect(apps, i(&it["app"]) as usize - 1, f, out) } else { out.push(f) } }
+    }
+    collect(&apps, 0, vec![], &mut fulls);
+    let mut reqs = vec![];
+    let methods = ["GET", "POST", "HEAD", "PUT", "DELETE"];
+    for f in &fulls {
+        for w in [vec!["a"], vec!["b", "b"], vec!["a", "b"]] {
+            let inst: Vec<Vec<&str>> = f.iter().map(|sg| if s(&sg["k"]) == "S" { arr(&sg["s"]).iter().map(s).collect() } else { w.clone() }).collect();
+            let mut variants = vec![inst.clone()];
+            let mut x = inst.clone(); x.push(vec!["a"]); variants.push(x);
+            if !inst.is_empty() { let mut x = inst.clone(); x.pop(); variants.push(x);
+                let k = rng.below(inst.len()); let mut x = inst.clone(); x[k].push("a"); variants.push(x);
+                let mut x = inst.clone(); x[k].pop(); variants.push(x); }
+            for vv in variants { if vv.is_empty() && false { continue }
+                let m = *rng.pick(&methods); let tr = if vv.is_empty() { 1 } else { rng.below(3).min(if rng.chance(1, 4) { 2 } else { 1 }) };
+                reqs.push(json!({"method": m, "path": vv, "trailing": tr})); }
+        }
+    }
+    let used: Vec<i64> = apps.iter().flat_map(|a| a.0.clone()).collect();
+    let early = if c04 && !used.is_empty() && rng.chance(1, 3) { *rng.pick(&used) } else { 0 };
+    json!({"id": idx, "mode": if c04 { "c04" } else { "c01" }, "seed": rng.next() % 1000,
+           "apps": apps.iter().map(|(f, its)| json!({"fangs": f, "items": its})).collect::<Vec<_>>(), "early": early, "reqs": reqs})
+}
